@@ -70,7 +70,7 @@ where
     let m = shape.commits();
     let k = padded.trailing_zeros() as usize;
     job.params = serde_json::json!({"gates": [n1, n2], "padded": padded, "commitments": m, "rounds": k, "proof": "every point a fresh independent symbol, every scalar a free variable"});
-    let pc = PedersenGens::<SymA<C>>::default();
+    let pc = pc_for::<SymA<C>>(&shape.name, seed);
     let bp = BulletproofGens::<SymA<C>>::new(padded, 1);
     let bases = name_bases(&pc, &bp, padded);
     let _ = bases;
